@@ -2,8 +2,8 @@
 
 Theorems (Properties/C06.v): see that file - lumping theorem for fibred networks, from which, for the tracer pair
 chain on EVERY torus and crystal, Lsv = -L0vv and L1vv = 0 in the implementation's normalisation; 0 <= Lss (L_psd).
-The upper bound Lss <= L0vv is checked on every generated chain (exactly, by the Coq certificate checker on dyadic
-cases; in floats otherwise) but not proved in general (partial).
+Upper bound: C06_Lss_upper (Thomson's principle with the bare corrector composed with the solute-site map as test field):
+for every chain passing tracer_check + qstructb, n.Lss.n <= n.L(bare).n in every direction, i.e. Lss <= L0vv.
 Tie: (a) maketracerpreene output vs the model's tracer table (every omega1/omega2 class gets exactly the data of its
 omega0 type, unit solute data); (b) exact tier: torus chain with tracer data, Coq checker over Z encloses the
 implementation's injected results and checks the identities on the exact values; (c) direct evaluator on Lij with
@@ -14,7 +14,7 @@ META = dict(
     text=("Theorems: lumping of fibred reversible networks; tracer pair chain => Lsv = -L0vv, L1vv = 0 for every torus; "
           "Lss >= 0. Tie: maketracerpreene vs the model's tracer table; Coq certificate checker on exact torus chains with "
           "tracer data; direct evaluator of the identities and bounds on Lij over the crystal pool, Nthermo 1-2."),
-    note=("Trusted: Coq kernel/vm_compute; harness torus chain; upper bound Lss <= L0vv only checked per case (partial); "
+    note=("Trusted: Coq kernel/vm_compute; harness torus chain; "
           "tolerances 1e-9 (identities, injected GF), 1e-4 (identities, real GF) and 2e-3 (bounds)."),
     technique="Coq proof (lumping theorem, L_psd) + tracer-table correspondence + torus-chain certificate + evaluator",
 )
@@ -32,9 +32,10 @@ Import ListNotations.
 Local Open Scope Z_scope.
 Definition mk (a : nat * nat * Z * list Z) : edge Zring := let '(s, t, c, d) := a in mkEdge (K:=Zring) s t c d.
 Definition runtr (c : nat * nat * nat * nat * list (nat * nat * Z * list Z) * list (nat * nat * Z * list Z)
-                      * list (nat * nat * Z * list Z) * list nat * list (list Z)) : bool :=
-  let '(dim, nX, nY, kfib, sw, ex, ny, p, gam) := c in
-  tracer_check (K:=Zring) dim nX nY kfib (map mk sw) (map mk ex) (map mk ny) p gam.
+                      * list (nat * nat * Z * list Z) * list nat * list nat * list (list Z)) : bool :=
+  let '(dim, nX, nY, kfib, sw, ex, ny, p, q, gam) := c in
+  tracer_check (K:=Zring) dim nX nY kfib (map mk sw) (map mk ex) (map mk ny) p gam &&
+  qstructb (K:=Zring) (map mk sw) (map mk ex) p q && nonnegb (K:=Zring) (map mk sw ++ map mk ex).
 """
 
 
@@ -64,10 +65,11 @@ def tracer_structure_term(d, th, M):
     sg = exact.lcm_den([g * sd for gk in gam for g in gk])
     s = sd * sg
     def enc(e): return "(%s, %s, %s, %s)" % (coq_nat(e[0]), coq_nat(e[1]), coq_Z(int(e[2] * sc)), coq_list([coq_Z(int(v * s)) for v in e[3]]))
-    p = [st[1] for st in c.states]
+    p = [st[1] for st in c.states]      # vacancy site of every pair state
+    q = [st[0] for st in c.states]      # solute site of every pair state
     kfib = N * M ** dim - 1
-    term = "(%s, %s, %s, %s, %s, %s, %s, %s, %s)" % (coq_nat(dim), coq_nat(c.n), coq_nat(N), coq_nat(kfib), coq_list([enc(e) for e in sw]),
-            coq_list([enc(e) for e in ex]), coq_list([enc(e) for e in ny]), coq_list([coq_nat(v) for v in p]),
+    term = "(%s, %s, %s, %s, %s, %s, %s, %s, %s, %s)" % (coq_nat(dim), coq_nat(c.n), coq_nat(N), coq_nat(kfib), coq_list([enc(e) for e in sw]),
+            coq_list([enc(e) for e in ex]), coq_list([enc(e) for e in ny]), coq_list([coq_nat(v) for v in p]), coq_list([coq_nat(v) for v in q]),
             coq_list([coq_list([coq_Z(int(g * s)) for g in gk]) for gk in gam]))
     return term, dict(n=c.n, nsw=len(sw), nex=len(ex), ny=len(ny), kfib=kfib)
 
